@@ -2,6 +2,7 @@ import ComposeVerif.Ops.Common
 import ComposeVerif.Model.Extends
 import ComposeVerif.Model.ExtendsMerge
 import ComposeVerif.Model.ExtendsFS
+import ComposeVerif.Model.ExtendsClone
 import ComposeVerif.Spec.Extends
 import ComposeVerif.Gen.Tables
 /-! line-protocol ops for C05: `c05.apply` (ApplyExtends over a file-system table), `c05.extend` (plain ExtendService) -/
@@ -79,8 +80,22 @@ def apply : Handler := fun args =>
       | some (.map S) => (keys S).map fun n =>
           Json.arr #[.str n, outJson Val.toJson (flattenF E ((keyUniverse E S).length + 2) S n)]
       | _ => []
+    -- the link walk of every service (`walkChain`: leaf / stuck / long; `long` ⇔ `Cyclic`, `walkChain_long_iff_cyclic`)
+    let walk : List Json :=
+      match lookup "services" dict with
+      | some (.map S) => (keys S).map fun n =>
+          Json.arr #[.str n, .str (match walkChain E ((keyUniverse E S).length + 2) S n with
+            | .leaf => "leaf" | .stuck => "stuck" | .long => "long")]
+      | _ => []
+    -- the class each service's chain gets stuck with, if it does (`stuckClass`; `stuck_service_error_class`)
+    let stuck : List Json :=
+      match lookup "services" dict with
+      | some (.map S) => (keys S).map fun n =>
+          Json.arr #[.str n, match stuckClass E ((keyUniverse E S).length + 2) S n with
+            | some c => .str c | none => Json.null]
+      | _ => []
     Json.mkObj [("outs", Json.arr (distinct.filterMap fun s => (Json.parse s).toOption).toArray),
-                ("flat", Json.arr flat.toArray)]
+                ("flat", Json.arr flat.toArray), ("walk", Json.arr walk.toArray), ("stuck", Json.arr stuck.toArray)]
   | _ => Json.mkObj [("bad", "dict")]
 
 /-- `override.ExtendService`: through the C04 merge model (`full`) and through the rule-free merge (`plain`) -/
@@ -114,7 +129,20 @@ def base : Handler := fun args =>
     outJson (fun d => Val.toJson (.map d)) (baseFromFile fs "f" (getStr args "ref"))
   | _ => Json.mkObj [("bad", "doc")]
 
+/-- `deepClone` on the heap model: lay the value out at addresses `0 … n-1`, clone with the allocator at `n`;
+`equal` = the clone has the argument's value, `shared` = containers of the clone that are containers of the argument,
+`fresh` = containers allocated -/
+def cloneOp : Handler := fun args =>
+  match Val.ofJson (getObj args "v") with
+  | .ok v =>
+    let h := Clone.alloc 0 v
+    let c := Clone.clone h.2 h.1
+    let shared := (Clone.addrs c.1).filter fun a => (Clone.addrs h.1).contains a
+    Json.mkObj [("equal", Json.bool (Clone.erase c.1 == v)), ("shared", Json.num shared.length),
+                ("fresh", Json.num (c.2 - h.2))]
+  | _ => Json.mkObj [("bad", "v")]
+
 def handlers : List (String × Handler) :=
-  [("c05.apply", apply), ("c05.extend", extend), ("c05.tracker", tracker), ("c05.base", base)]
+  [("c05.apply", apply), ("c05.extend", extend), ("c05.tracker", tracker), ("c05.base", base), ("c05.clone", cloneOp)]
 
 end CV.Ops.C05
